@@ -499,17 +499,21 @@ func R19(group string) Rule {
 				if cp, ok := core.Resolve(fc.Call.Args[1]).(*ssa.Call); ok && core.FuncIs(cp.Call.StaticCallee(), core.PkgBttest, "copyRow") {
 					copiedFrom = P.Origins(cp.Call.Args[0], within)
 					okCopy = len(copiedFrom) > 0
+					// the row read from the store — or, where the lookup-or-create is written out inline, the
+					// fresh row made when the store has none
+					anyReader := false
 					for _, o := range copiedFrom {
-						fromReader := false
 						for _, s := range rowSources(P, o, map[ssa.Value]bool{}) {
-							if s.kind == srcReader {
-								fromReader = true
+							switch s.kind {
+							case srcReader:
+								anyReader = true
+							case srcFresh, srcNil:
+							default:
+								okCopy = false
 							}
 						}
-						if !fromReader {
-							okCopy = false
-						}
 					}
+					okCopy = okCopy && anyReader
 				}
 				c.Check(okCopy, "R19", "cam/predicate-on-copy"+sfx, fc.Pos(), "the predicate runs on copyRow of the row read from the store", "the predicate filter is evaluated on the authoritative row: cells it strips are lost when the row is written back")
 				c.Check(P.AllOrigins(fc.Call.Args[0], within, func(o ssa.Value) bool {
@@ -518,11 +522,28 @@ func R19(group string) Rule {
 				// the row the decision is based on and the row that is written back come from one read
 				if len(acalls) == 1 {
 					same := len(copiedFrom) > 0
+					written := P.Origins(acalls[0].Call.Args[1], within)
+					// the two origin sets coincide (each may be {read row, fresh row} when lookup-or-create is inline)
 					for _, o := range copiedFrom {
-						for _, w := range P.Origins(acalls[0].Call.Args[1], within) {
-							if !sameRow(P, o, w) {
-								same = false
+						found := false
+						for _, w := range written {
+							if sameRow(P, o, w) {
+								found = true
 							}
+						}
+						if !found {
+							same = false
+						}
+					}
+					for _, w := range written {
+						found := false
+						for _, o := range copiedFrom {
+							if sameRow(P, o, w) {
+								found = true
+							}
+						}
+						if !found {
+							same = false
 						}
 					}
 					c.Check(same, "R19", "cam/decision-and-write-on-one-read"+sfx, acalls[0].Pos(), "the predicate is evaluated on (a copy of) the very row read that is then mutated and stored", "the predicate is evaluated on one read of the row and the mutations are applied to another read: a write admitted in between is neither seen by the predicate nor excluded — two check-and-mutates can both act on a state only one of them could have seen")
